@@ -399,6 +399,7 @@ class MK:
         self.cond_style = kw.get("cond_style", "prop")
         self.stmt_calls = dict(kw.get("stmt_calls", {}))     # call statements with effects on buffers: name -> python handler(tr, e, st, out, ind)
         self.macro_pat = kw.get("macro_pat", ("(", ")"))
+        self.inline_pure = kw.get("inline_pure", False)      # monadic kernels: pure values are inlined at their uses instead of `let`-bound
         self.iloops = list(kw.get("iloops", []))             # step functions of the `for i in 0..N` loops, in source order
         self.tr_class = kw.get("tr_class")                   # optional subclass of Tr / IntTr (extra expression forms of one source file)
         self.macro_lit_ok = dict(kw.get("macro_lit_ok", {})) # macro (call form) -> predicate on the argument texts (literal side conditions)
@@ -865,15 +866,22 @@ class Tr:
             return V(f"{lv.p()} {op} {rv.p()}", "bool")
         if op == "+" and self.k.mode == "int" and self.k.monadic:
             terms = self.flatten_add(("bin", op, l, r))
+            pure_terms = False
             if len(terms) >= 3:
-                vs = []
-                ty = want
-                for t_ in terms:
-                    v_ = self.ex(t_, st, ty, out, ind)
-                    ty = v_.ty
-                    vs.append(v_)
-                if any(v_.ty != ty for v_ in vs) or not self.is_int(ty):
-                    raise TranslateError("sum of mixed types")
+                # only when evaluating the terms has no effect of its own (no checked operation inside a term): otherwise the
+                # Rust order (term, add, term, add, …) is kept by the binary path below
+                probe, vs, ty = [], [], want
+                saved_tmpn, saved_hint = self.tmpn, self._hint
+                try:
+                    for t_ in terms:
+                        v_ = self.ex(t_, st, ty, probe, ind)
+                        ty = v_.ty
+                        vs.append(v_)
+                    pure_terms = not probe and all(v_.ty == ty for v_ in vs) and self.is_int(ty)
+                except TranslateError:
+                    pure_terms = False
+                self.tmpn, self._hint = saved_tmpn, saved_hint
+            if pure_terms:
                 fn = self.k.int_ops.get(("sum", SIGNED[ty]))
                 if fn is not None:
                     # `a + b + c + …`: left to right, every partial sum checked (that IS the definition of the helper)
@@ -897,6 +905,8 @@ class Tr:
             if op in "+-*":
                 return self.int_arith(op, lv, rv, ty, st, out, ind, hint)
             if op == "&":
+                if self.is_const_int(l, st) and not self.is_const_int(r, st):
+                    return self.int_and(rv, lv, l, st)
                 return self.int_and(lv, rv, r, st)
             raise TranslateError(f"operator {op} on {ty}")
         if ty in ("usize", "nat"):
@@ -1036,6 +1046,13 @@ class Tr:
             # the value was just produced by the hinted bind `let <name> ← …` (name chosen by fresh_for for this very place)
             self._last_hinted = None
             st.vars[place] = V(v.t, v.ty, True)
+            if declare:
+                st.scopes[-1].add(place)
+            return
+        if self.k.inline_pure and isinstance(v.ty, str):
+            # no `let`: the (pure) value itself stands for the variable (only binds are emitted; see Proofs/BindWalk.lean: a `let`
+            # at the root of a long bind chain makes the kernel re-compare the whole chain)
+            st.vars[place] = V(v.t, v.ty, v.at)
             if declare:
                 st.scopes[-1].add(place)
             return
@@ -2027,6 +2044,6 @@ def translate(k: MK):
         out2.append(f"{ind2}{text}")
     tr.seq(stmts, 0, st, out, ind, fin)
     note = f" [{tr.n_checked} checked word op(s) rendered wrapping: overflow-freedom is a separate theorem]" if tr.n_checked else ""
-    return (f"/-- {k.doc} — GENERATED from `{'macro ' if k.kind == 'macro' else 'fn '}{k.fn}` in {k.file}{note} -/\n"
-            f"{k.attrs}def {k.lean_name} {k.params} : {k.ret_type} :={' do' if k.monadic else ''}\n"
+    return (f"{k.attrs}/-- {k.doc} — GENERATED from `{'macro ' if k.kind == 'macro' else 'fn '}{k.fn}` in {k.file}{note} -/\n"
+            f"def {k.lean_name} {k.params} : {k.ret_type} :={' do' if k.monadic else ''}\n"
             + "\n".join(out) + "\n")
